@@ -969,7 +969,13 @@ class Parser:
         while not isinstance(s, EmptyNode):
             if self.accept('colon'):
                 a.colons.append(self.create_node(SymbolNode, self.previous))
-                a.set_kwarg_no_check(s, self.statement())
+                value = self.statement()
+                try:
+                    a.set_kwarg_no_check(s, value)
+                except TypeError:
+                    # the key contains an empty operand (e.g. `{-: 1}`) and cannot be stored
+                    raise ParseException('Invalid dictionary key.',
+                                         self.getline(), s.lineno, s.colno)
                 if not self.accept('comma'):
                     return a
                 a.commas.append(self.create_node(SymbolNode, self.previous))
